@@ -412,6 +412,50 @@ def rule_OD10(rep, prog, q):
         rep.unknown(rid, "no hand-over to _dispatch_lane_legacy_set_target_queue found")
 
 
+def rule_OD12(rep, prog, prog_io, prog_obj):
+    rid = rep.rule("C17-OD12", "dropping references in the right step: (a) a retarget releases the PREVIOUS target it reads in the same serialised step in which it "
+                   "installs the new one (not a value captured when the retarget was requested: two requests in a row would release the same queue twice and never "
+                   "the intermediate one); (b) the last external release marks the queue RELEASED (_dispatch_queue_xref_dispose) BEFORE the type-specific hook "
+                   "wakes the object - a source released without cancel is otherwise woken while the flag is still clear, finds nothing to do, and is never torn "
+                   "down (its target queue is retained for ever)", floor=3)
+    n = 0
+    for pr in (prog, prog_io):
+        for fn in pr.all_functions():
+            sts = [st for st in fn.all_insts() if st.op == "store" and "do_targetq" in pr.fields(st) and st.ops[0][0] == "i"]
+            if not sts:
+                continue
+            rels = [c for c in fn.all_insts() if c.op == "call" and c.callee in ("_dispatch_release", "_dispatch_release_tailcall", "dispatch_release")]
+            for c in rels:
+                r = root_ptr(fn, c.ops[0])
+                ri = fn.inst(list(r)) if r[0] == "i" else None
+                if ri is None or ri.op != "load" or "dispatch_queue_s" not in str(ri.d.get("ty", "")):
+                    continue
+                if any(root_ptr(fn, st.ops[0]) == r for st in sts):
+                    continue          # the new target itself
+                n += 1
+                rep.saw(fn)
+                ok = "do_targetq" in pr.fields(ri) and any(fn.dominates(ri, st) for st in sts)
+                rep.require(rid, ok, c.loc, fn.name, "retarget-releases-stale-target:%s" % fn.name,
+                            "%s installs a new do_targetq and releases a queue that is not the do_targetq value it read itself before the store (%s at %s): with the "
+                            "previous target captured earlier, two retargets in a row release the same queue twice - it is finalised while the application still "
+                            "holds it - and the intermediate target is never released" % (fn.name, ri.op, ri.loc), sample={"fn": fn.name, "release": c.loc})
+    fx = prog_obj.fn("_dispatch_xref_dispose")
+    rep.saw(fx)
+    qx = calls_named(fx, "_dispatch_queue_xref_dispose")
+    hooks = [c for c in fx.all_insts() if c.op == "call" and c.callee and c.callee.endswith("_xref_dispose") and c not in qx]
+    if not qx or not hooks:
+        rep.unknown(rid, "anchor vanished in _dispatch_xref_dispose (queue step=%d, type hooks=%d)" % (len(qx), len(hooks)))
+    else:
+        n += 1
+        late = [h for h in hooks if any(fx.inst_reaches(h, q_) for q_ in qx)]
+        rep.require(rid, not late, (late[0] if late else qx[0]).loc, fx.name, "xref-dispose-order",
+                    "_dispatch_xref_dispose runs the type-specific hook %s before _dispatch_queue_xref_dispose has set DQF_RELEASED: the hook's wake-up is what starts "
+                    "the tear-down of a source released without dispatch_source_cancel, and it only does so when it sees the flag" % (late[0].callee if late else ""),
+                    sample={"hooks": len(hooks)})
+    if n < 3:
+        rep.unknown(rid, "fewer than 3 release-ordering sites found (%d)" % n)
+
+
 def rule_OD11(rep, prog_io):
     """blocks that release a captured object: when the submitting function itself takes the reference the block will drop, it takes it before EVERY submission
     of such a block (all branches), so that the block never drops a reference its submitter did not add"""
@@ -551,9 +595,12 @@ def run(rep, tier="quick", srcdir=None, only=None):
         rule_MP9(rep, prog, q)
     if want("C17-OD10"):
         rule_OD10(rep, prog, q)
-    if want("C17-OD11"):
+    if want("C17-OD11") or want("C17-OD12"):
         pio, _u = load(["io"], tier, srcdir)
-        rule_OD11(rep, pio)
+        if want("C17-OD11"):
+            rule_OD11(rep, pio)
+        if want("C17-OD12"):
+            rule_OD12(rep, prog, pio, prog)
     if want("C13-OD2"):
         C13.rule_OD2(rep, prog)      # data objects: returned / stored sub-objects are retained (destructors run exactly once)
     if want("C13-WM3"):
